@@ -122,7 +122,7 @@ def work_perms(chunk):
 
 def _has_calendars(spec):
     res = [w for tm in spec.get("teams", []) for w in tm.get("workers", [])] + [f for wp in spec.get("workplaces", []) for f in wp.get("facilities", [])]
-    return any(r.get("absence") or r.get("absence_after") for r in res)
+    return any(r.get("absence") or r.get("absence_after") or r.get("absence_late") for r in res)
 
 
 def _strip_prefix(d, L):
